@@ -359,6 +359,20 @@ func run(c *core.Ctx) {
 			}
 		}
 	}
+	// tag-syntax soups: static text assembled from the bytes that delimit tags, attribute names
+	// and values, with actions in between; the engine decides what it accepts, and every
+	// accepted template is judged like the others (a "<" is never the last byte before an
+	// action, so that class K17 stays out)
+	rs := c.Rng("soup")
+	nS := c.N(240000, 4000000) / c.NShards
+	for i := 0; i < nS; i++ {
+		text := tagSoup(rs)
+		c.Journal(util.JSON(map[string]string{"template": text}))
+		for a := 0; a < 3; a++ {
+			hs, is := gen.GenData(rs, hostileLeaf(rs))
+			checkOne(c, text, hs, is, false)
+		}
+	}
 	// fixed battery
 	for i, text := range battery {
 		if !c.Mine(i) {
@@ -369,4 +383,80 @@ func run(c *core.Ctx) {
 			checkOne(c, text, hs, is, false)
 		}
 	}
+}
+
+
+var soupNames = []string{"a", "p", "b", "i", "div", "script", "style", "textarea", "title", "svg", "object", "iframe", "br", "img", "input", "link", "x-y", "a:b"}
+var soupAttrs = []string{"title", "href", "id", "alt", "data-x", "x", "src", "lang", "value"}
+var soupPunct = []string{"<", "</", ">", "/>", "/", "=", "\"", "'", " ", " ", "\n", "\t", "\f", "\r", ".", "_", "-", ":", "\x00", "<!--", "-->", "--!>", "</script>", "</textarea>", "</title", "</style >", "x", "&", ";", "`", "=\"\"", "=''"}
+var soupActs = []string{`{{$.S0}}`, `"{{$.S0}}"`, `='{{$.S1}}'`, `="{{$.S0}}"`, ` title="{{$.S1}}"`, ` alt='{{$.S0}}'`, `>{{$.S0}}<`, `{{/**/}}`, `{{if $.C0}} {{end}}`, `{{if $.C1}}x{{end}}`, `{{if $.C0}}"{{else}}'{{end}}`, `{{with $.S7}}>{{end}}`}
+
+var soupBases = []string{
+	`<a title="v" alt="{{$.S0}}">y</a>`, `<p title="{{$.S0}}">y</p>`, `<a href="/x" title='{{$.S0}}'>y</a>`, `<p>{{$.S0}}</p>`, `<b id="i">{{$.S0}}</b>`,
+	`<script>{{$.S0}}</script>`, `<script>x()</script>{{$.S0}}`, `<style>{{$.S0}}</style>`, `<textarea>{{$.S0}}</textarea>{{$.S1}}`, `<title>{{$.S0}}</title><p>{{$.S1}}</p>`,
+	`<img alt="{{$.S0}}">`, `<input value="{{$.S0}}" title="w">`, `<br title="{{$.S0}}"/>z`, `<svg><a title="{{$.S0}}">y</a></svg>`, `<object><param value="{{$.S0}}"></object>`,
+	`<div><!-- c -->{{$.S0}}</div>`, `<a title="v"{{if $.C0}} lang="en"{{end}} alt="{{$.S0}}">y</a>`, `<p title="a{{$.S0}}b" alt='c{{$.S1}}d'>y</p>`,
+}
+var soupInserts = append([]string{"/=", "/=\"", ".=\"\"", "-=\"\"", " </script", " </style", "</textarea", "<", "<b", "</p", " =", "==", "\"\"", "''", "=\"", "='", "/ ", " / ", "//", "/>", "\x00=\"\"", "_x", ".x", ":", "{{/**/}}", "{{if $.C1}} {{end}}", "{{if $.C1}}\"{{end}}"}, soupPunct...)
+
+// tagSoup makes one template text: a well-formed base with an action, damaged by a few seeded
+// mutations (insert a delimiter sequence, replace a white space by one, delete a byte), or, one
+// time in four, a free soup of such pieces.
+func tagSoup(r *core.Rng) string {
+	pick := func(l []string) string { return l[r.Intn(len(l))] }
+	if r.Intn(4) > 0 {
+		t := pick(soupBases)
+		for k := 1 + r.Intn(3); k > 0; k-- {
+			// positions outside {{...}}
+			var pos []int
+			depth := false
+			for i := 0; i < len(t); i++ {
+				if strings.HasPrefix(t[i:], "{{") {
+					depth = true
+				}
+				if !depth {
+					pos = append(pos, i)
+				}
+				if i > 0 && strings.HasPrefix(t[i-1:], "}}") {
+					depth = false
+				}
+			}
+			if len(pos) == 0 {
+				break
+			}
+			p := pos[r.Intn(len(pos))]
+			switch r.Intn(4) {
+			case 0, 1:
+				t = t[:p] + pick(soupInserts) + t[p:]
+			case 2:
+				// replace the next white space
+				if j := strings.IndexAny(t[p:], " \n\t"); j >= 0 && !strings.Contains(t[p:p+j], "{{") {
+					t = t[:p+j] + pick(soupInserts) + t[p+j+1:]
+				}
+			default:
+				if t[p] != '{' && t[p] != '}' {
+					t = t[:p] + t[p+1:]
+				}
+			}
+		}
+		return strings.ReplaceAll(t, "<{{", "< {{")
+	}
+	var b strings.Builder
+	n := 3 + r.Intn(12)
+	for i := 0; i < n; i++ {
+		switch k := r.Intn(10); {
+		case k < 2:
+			b.WriteString("<" + pick(soupNames))
+		case k < 4:
+			b.WriteString(pick(soupAttrs))
+		case k < 7:
+			b.WriteString(pick(soupPunct))
+		case k < 9:
+			b.WriteString(pick(soupActs))
+		default:
+			b.WriteString(" " + pick(soupAttrs) + "=\"v\"")
+		}
+	}
+	b.WriteString(pick([]string{">", "\">", "'>", "", "></a>", "</script>"}))
+	return strings.ReplaceAll(b.String(), "<{{", "< {{")
 }
